@@ -11,6 +11,9 @@ R10.4 result typing: float helpers build Float, int helpers Int, is_* Boolean; `
       math::abs keeps the argument's type and reports overflow as an error;
 R10.5 `len` and `str::substring` measure strings with the same unit (String::len) and slice with str::get;
 R10.6 result provenance: min/max/if return one of their arguments - no constant or associated constant reaches an Ok result.
+R10.7 `contains(t, x)` is slice membership of x in t; `contains_any(t, (y1, y2))` is true exactly on the paths where some membership
+      test `t.contains(yi)` was true; a non-tuple first argument (or non-tuple second argument of contains_any) is ExpectedTuple;
+      a tuple-typed or empty element to look for is a type error on every path, wherever it stands and whatever the other elements match.
 Not decided: any numeric result (libm), shift values outside 0..63, min/max with NaN."""
 import re
 import tables
@@ -48,6 +51,7 @@ def run(ctx):
     r104(ctx, prog, B)
     r105(ctx, prog, B)
     r106(ctx, prog, B)
+    r107(ctx, prog, B)
     impl_chain(ctx, prog)
     if ctx.tier == 'thorough':
         pf = ctx.prog(features=('rand', 'regex', 'serde'))
@@ -91,6 +95,10 @@ class Builtins:
 
     def tuple(self, elems):
         return self.V('Tuple', ('tuple', tuple(elems)))
+
+    def V2(self, name, payload):
+        v = [x for x in self.val['variants'] if x['name'] == name][0]
+        return ADT(self.val['path'], v['idx'], name, [payload])
 
     def call(self, name, arg, depth=5):
         cl = self.closures[name]
@@ -441,3 +449,74 @@ def has_assoc(v):
     if v[0] == 'app':
         return False  # an application term (e.g. min(assoc, x)) is a computed value, decided by the float/int min
     return False
+
+
+PRIMS = ('String', 'Int', 'Float', 'Boolean')
+B_TYPES = PRIMS + ('Tuple', 'Empty')
+SLICE_CONTAINS = 'slice::<impl [T]>::contains'
+
+
+def is_err(ret, variant):
+    return is_adt(ret, 'result::Result', 'Err') and is_adt(ret[4][0], 'error::EvalexprError', variant)
+
+
+def r107(ctx, prog, B):
+    n = 0
+    if 'contains' in B.closures:
+        for ty in B_TYPES:
+            x = B.tuple([]) if ty == 'Tuple' else B.V(ty, 'x')
+            ps = B.call('contains', B.tuple([B.V('Tuple', SYM('t')), x]))
+            got = [fmt(p[0])[:110] for p in (ps or [])]
+            n += 1
+            if ty in PRIMS:
+                good = ps is not None and len(ps) == 1 and is_adt(ps[0][0], 'result::Result', 'Ok') and is_adt(ps[0][0][4][0], 'value::Value', 'Boolean')
+                if good:
+                    m = ps[0][0][4][0][4][0]
+                    good = m[0] == 'app' and m[1].endswith(SLICE_CONTAINS) and m[2] == (SYM('t'), x)
+                ctx.check(good, 'R10.7', 'contains[Tuple,%s]' % ty, 'membership', 'contains(t, x) is the slice membership test of x in t (found %s)' % got)
+            else:
+                ctx.check(ps is not None and len(ps) >= 1 and all(is_err(p[0], 'TypeError') for p in ps), 'R10.7', 'contains[Tuple,%s]' % ty, 'type-error', 'a tuple or empty value to look for is a type error (found %s)' % got)
+            if ty != 'Tuple':
+                ps = B.call('contains', B.tuple([B.V(ty, 'a'), B.V('Int', 'x')]))
+                n += 1
+                ctx.check(ps is not None and len(ps) >= 1 and all(is_err(p[0], 'ExpectedTuple') and p[0][4][0][4] == (B.V(ty, 'a'),) for p in ps), 'R10.7', 'contains[%s,Int]' % ty, 'expected-tuple', 'a non-tuple first argument is ExpectedTuple carrying it (found %s)' % [fmt(p[0])[:110] for p in (ps or [])])
+    else:
+        ctx.violation('R10.7', 'contains', 'missing', 'contains has no arm')
+    if 'contains_any' in B.closures:
+        for ta, tb in (('Int', 'String'), ('Float', 'Boolean'), ('String', 'String')):
+            ya, yb = B.V(ta, 'y1'), B.V(tb, 'y2')
+            ps = B.call('contains_any', B.tuple([B.V('Tuple', SYM('t')), B.tuple([ya, yb])]))
+            n += 1
+            good = ps is not None and len(ps) >= 2
+            seen = set()
+            for ret, eff in (ps or []):
+                tests = [(v, tk) for v, tk in branches_of(eff) if v[0] == 'app' and v[1].endswith(SLICE_CONTAINS)]
+                good = good and all(v[2][0] == SYM('t') and v[2][1] in (ya, yb) for v, tk in tests)
+                hit = any(tk != C(0) for v, tk in tests)
+                good = good and ret == OK(B.V2('Boolean', C(hit)))
+                # every element that could still decide the result was tested
+                tested = [v[2][1] for v, tk in tests]
+                good = good and (hit or tested == [ya, yb]) and tested == [ya, yb][:len(tested)]
+                seen.add(hit)
+            ctx.check(good and seen == {True, False}, 'R10.7', 'contains_any[Tuple,(%s,%s)]' % (ta, tb), 'any', 'contains_any(t, (y1, y2)) is true exactly when some t.contains(yi) is true, testing the elements in order (found %s)' % sorted({fmt(p[0])[:80] for p in (ps or [])}))
+        for bad_ty in ('Tuple', 'Empty'):
+            for pos in (0, 1):
+                for other in PRIMS:
+                    elems = [B.V(other, 'y'), B.V(other, 'y')]
+                    elems[pos] = B.tuple([]) if bad_ty == 'Tuple' else B.V('Empty', 'e')
+                    ps = B.call('contains_any', B.tuple([B.V('Tuple', SYM('t')), B.tuple(elems)]))
+                    n += 1
+                    inst = 'contains_any[Tuple,(%s)]' % ','.join(bad_ty if i == pos else other for i in (0, 1))
+                    ctx.check(ps is not None and len(ps) >= 1 and all(is_err(p[0], 'TypeError') for p in ps), 'R10.7', inst, 'type-error',
+                              'a tuple or empty element to look for is a type error on every path, wherever it stands and whatever the other elements match (found %s)' % sorted({fmt(p[0])[:80] for p in (ps or [])}))
+        for ty in B_TYPES:
+            if ty == 'Tuple':
+                continue
+            ps = B.call('contains_any', B.tuple([B.V(ty, 'a'), B.tuple([B.V('Int', 'y')])]))
+            ps2 = B.call('contains_any', B.tuple([B.V('Tuple', SYM('t')), B.V(ty, 'b')]))
+            n += 2
+            ctx.check(ps is not None and len(ps) >= 1 and all(is_err(p[0], 'ExpectedTuple') and p[0][4][0][4] == (B.V(ty, 'a'),) for p in ps), 'R10.7', 'contains_any[%s,Tuple]' % ty, 'expected-tuple', 'a non-tuple first argument is ExpectedTuple carrying it (found %s)' % [fmt(p[0])[:110] for p in (ps or [])])
+            ctx.check(ps2 is not None and len(ps2) >= 1 and all(is_err(p[0], 'ExpectedTuple') and p[0][4][0][4] == (B.V(ty, 'b'),) for p in ps2), 'R10.7', 'contains_any[Tuple,%s]' % ty, 'expected-tuple', 'a non-tuple second argument is ExpectedTuple carrying it (found %s)' % [fmt(p[0])[:110] for p in (ps2 or [])])
+    else:
+        ctx.violation('R10.7', 'contains_any', 'missing', 'contains_any has no arm')
+    ctx.floor('R10.7', 'membership_cases', n, 40)
